@@ -503,10 +503,55 @@ func runC03(c *Ctx) {
 	// R4 ------------------------------------------------------------
 	g := c.gem()
 	nsel := 0
-	for _, gf := range g.order {
-		if !gf.Emits {
+	// isLiteralFlag: the parser's InsideStringLiteral field, or a boolean parameter of a function of the package that
+	// receives it at every call site (a constructor of what to emit: scriptContentSink(c.InsideStringLiteral))
+	var isLiteralFlag func(x ast.Expr, depth int) bool
+	isLiteralFlag = func(x ast.Expr, depth int) bool {
+		x = ast.Unparen(x)
+		if se, ok := x.(*ast.SelectorExpr); ok {
+			return se.Sel.Name == "InsideStringLiteral"
+		}
+		id, ok := x.(*ast.Ident)
+		if !ok || depth > 1 {
+			return false
+		}
+		ob := g.info.ObjectOf(id)
+		for _, fd := range allFuncDecls(g.pkg) {
+			idx, k := -1, 0
+			for _, pl := range fd.Type.Params.List {
+				for _, nm := range pl.Names {
+					if g.info.Defs[nm] == ob {
+						idx = k
+					}
+					k++
+				}
+			}
+			if idx < 0 {
+				continue
+			}
+			fobj, _ := g.info.Defs[fd.Name].(*types.Func)
+			sites := 0
+			all := true
+			for _, f := range g.pkg.Syntax {
+				ast.Inspect(f, func(n ast.Node) bool {
+					if call, ok := n.(*ast.CallExpr); ok && fobj != nil && calleeOf(g.info, call) == fobj {
+						sites++
+						if idx >= len(call.Args) || !isLiteralFlag(call.Args[idx], depth+1) {
+							all = false
+						}
+					}
+					return true
+				})
+			}
+			return sites > 0 && all && !usedAsValue(g.pkg, fobj)
+		}
+		return false
+	}
+	for _, fd := range allFuncDecls(g.pkg) {
+		if fd.Body == nil {
 			continue
 		}
+		gf := &GFunc{Name: fd.Name.Name, Key: funcKey(g.pkg, fd), Decl: fd}
 		ast.Inspect(gf.Decl.Body, func(n ast.Node) bool {
 			is, ok := n.(*ast.IfStmt)
 			if !ok {
@@ -517,8 +562,7 @@ func runC03(c *Ctx) {
 			if ue, ok := cond.(*ast.UnaryExpr); ok && ue.Op == token.NOT {
 				cond, neg = ue.X, true
 			}
-			se, ok := cond.(*ast.SelectorExpr)
-			if !ok || se.Sel.Name != "InsideStringLiteral" || len(is.Body.List) != 1 {
+			if !isLiteralFlag(cond, 0) || len(is.Body.List) != 1 {
 				return true
 			}
 			as, ok := is.Body.List[0].(*ast.AssignStmt)
